@@ -248,9 +248,19 @@ func TestVerif_HealthSched(t *testing.T) {
 			}
 			_ = repo.UpdateEndpoint(ctx, e)
 		}
+		// a probe of a backend scripted to hang is real as soon as the health client made its HTTP call: on a loaded
+		// machine the 100 ms probe timeout may expire before the backend's handler has even been entered (and counted)
+		realProbes := func(calls int64) int64 {
+			p := probes.Load()
+			if p == 0 && calls > 0 && mode.Load().(string) == "timeout" {
+				return calls
+			}
+			return p
+		}
 		noteFault := func(calls int64, lerr string) {
 			m := mode.Load().(string)
-			if calls > 0 && probes.Load() == 0 && lerr != "" && !strings.Contains(lerr, "context") &&
+			// (also a probe that ran into its 3 s timeout without the answering backend having seen it)
+			if calls > 0 && probes.Load() == 0 && lerr != "" &&
 				(m == "ok" || m == "http4xx" || m == "http5xx") {
 				envFault = m + " backend never reached: " + lerr
 			}
@@ -280,7 +290,7 @@ func TestVerif_HealthSched(t *testing.T) {
 				cancel()
 				calls, lerr := rec.calls.Swap(0), rec.lastErr()
 				noteFault(calls, lerr)
-				kv := append([]any{"probes", probes.Load(), "calls", calls, "err", lerr}, state(prev)...)
+				kv := append([]any{"probes", realProbes(calls), "calls", calls, "err", lerr}, state(prev)...)
 				b.Emit("Round", kv...)
 			case "RoundCut":
 				// a round whose own time budget (60 ms) is shorter than what the probe of a hanging backend takes
@@ -297,7 +307,7 @@ func TestVerif_HealthSched(t *testing.T) {
 				cancel()
 				calls, lerr := rec.calls.Swap(0), rec.lastErr()
 				noteFault(calls, lerr)
-				kv := append([]any{"probes", probes.Load(), "calls", calls, "err", lerr}, state(prev)...)
+				kv := append([]any{"probes", realProbes(calls), "calls", calls, "err", lerr}, state(prev)...)
 				b.Emit("RoundCut", kv...)
 			case "SlowBegin":
 				// a due check runs its probe and parks before storing the result
